@@ -171,3 +171,18 @@ H("C08", "css/validation", "VxH_C08_isolation", reach=["validated"], bounds="[or
 H("C08", "css/validation", "VxH_C08_sides", mode="real", reach=["expanded"], bounds="margin / padding / border-width with 1..4 symbolic px lengths")
 H("C08", "html/tree", "VxH_C08_var", reach=["computed"], divergence=True, bounds="custom properties --a, --b (thorough --c) each undefined or one of 8 definitions (number, ident, var() of each other, with and without fallback); orphans: var(...) in 3 forms", quick={"maxdepth": 250})
 H("C08", "html/tree", "VxH_C08_var_shorthand", reach=["computed"], bounds="4 shorthand declarations using var(--m), --m one of {4px, 0, auto, red}, declared in a style attribute or in a <style> sheet; compared with the hand-substituted declaration")
+
+# ---- C04 computed values ----
+ASSUMPTIONS["C04"] = [
+    "styles are computed by the real newStyleFor / ComputedStyle code for a two-element document (root, child) whose rules use stub selectors; magnitudes are symbolic reals in (0, 1000] (real mode, float32 ratio constants within the comparison tolerance)",
+    "ex / ch (text measurement), pseudo-elements, page contexts and anonymous boxes beyond the listed harness are outside the claim",
+]
+CLAIMS["C04"] = {
+    "text": "For each of the ~230 properties and each of {no declaration, inherit, initial} the solver-backed executor shows the child's computed value exists and equals the parent's computed value or the computed initial value; for symbolic lengths in every unit it shows the absolute-unit ratios and the font-size reference (parent for font-size em/%, own for other em, root for rem).",
+    "design_ref": "DESIGN.md section 4 C04",
+    "note": "Trusted: symgo, z3 nlsat, DeepEqual on interpreter values.",
+}
+H("C04", "html/tree", "VxH_C04_length", mode="real", reach=["computed"], bounds="root font-size, child font-size and width symbolic in (0,1000], units enumerated over px pt pc in cm mm q em rem %")
+H("C04", "html/tree", "VxH_C04_defaulting", mode="real", reach=["computed"], bounds="every known property x {undeclared, inherit, initial} on a child of a root with symbolic font-size")
+H("C04", "html/tree", "VxH_C04_root", reach=["computed"], bounds="every known property x {inherit, initial} on the root element")
+H("C04", "html/tree", "VxH_C04_shared_rule", mode="real", reach=["computed"], bounds="two siblings with symbolic font sizes sharing one rule with em lengths (transform: translate, width, margin-left)")
